@@ -1,9 +1,9 @@
 (* C16 — non-tensor entries follow batch semantics.  Property theorems only.
    nt = Shared payload shape (NonTensorData) | Stack dim members (NonTensorStack); denote x I = the object at multi-index I. *)
-From Coq Require Import ZArith List Bool.
+From Coq Require Import ZArith List Bool Lia.
 Import ListNotations.
 From TD Require Import Spec.PySlice Spec.C16_ObjArray Model.C16_NonTensor.
-From TD Require Import Proofs.C16_BasicsP Proofs.C16_StackP Proofs.C16_SpecP Proofs.C16_IndexP Proofs.C16_MiscP Proofs.C16_TolistP.
+From TD Require Import Proofs.C16_BasicsP Proofs.C16_StackP Proofs.C16_SpecP Proofs.C16_IndexP Proofs.C16_MiscP Proofs.C16_TolistP Proofs.C16_AssignP.
 Open Scope nat_scope.
 
 (* maybe_to_stack / from_nontensordata change the representation, never the array *)
@@ -85,6 +85,34 @@ Theorem C16_setitem_noop_sound : forall x idx sh r v vexp cur tc tv,
 Proof. exact set_at_noop_sound. Qed.
 Print Assumptions C16_setitem_noop_sound.
 
+(* update(inplace) of an entry by another of the same batch shape: every object is replaced, the shape is kept *)
+Theorem C16_update_denote : forall dst src sh y,
+  wf dst = true -> shape dst = Some sh -> wf src = true -> shape src = Some sh -> update_in dst src = Ok y ->
+  shape y = Some sh /\ wf y = true /\ forall I, denote y I = denote src I.
+Proof. exact update_in_spec. Qed.
+Print Assumptions C16_update_denote.
+
+(* td[idx] = value (TensorDict._set_at_str, non-tensor branch): whichever branch runs — nothing written because the values
+   are already there, or promotion of a shared object to a stack (maybe_to_stack) followed by the lazy __setitem__ —
+   afterwards the addressed positions hold the value's objects and every other position holds what it held.
+   Index grammar: ints, slices, None-free prefixes, one 1-d integer index anywhere (what the model of the write covers:
+   for the others `set_at` answers OutOfModel, never Ok) *)
+Theorem C16_setitem_denote : forall x idx v sh r y,
+  wf x = true -> shape x = Some sh -> n_adv idx <= 1 -> ix_shape idx sh = Some r ->
+  wf v = true -> shape v = Some r -> set_at x idx v v = Ok y ->
+  shape y = Some sh /\ wf y = true /\
+  (forall R I, ix_src idx sh R = Some I -> denote y I = denote v R) /\
+  (forall I, (forall R, ix_src idx sh R <> Some I) -> denote y I = denote x I).
+Proof. exact set_at_spec. Qed.
+Print Assumptions C16_setitem_denote.
+
+(* ... and for every history of such writes (shared -> stack -> written back -> ...), by induction over the history *)
+Theorem C16_setitem_history : forall ws x y sh,
+  wf x = true -> shape x = Some sh -> Forall (legal_write sh) ws -> run_writes x ws = Ok y ->
+  wf y = true /\ shape y = Some sh /\ updates sh (denote x) ws (denote y).
+Proof. exact writes_history. Qed.
+Print Assumptions C16_setitem_history.
+
 (* get_non_tensor / NonTensorStack.data.  Full statement: the unique value is returned only when every position holds it. *)
 Definition C16_data_full_statement : Prop :=
   forall x p, wf x = true -> data_prop x = Some p -> forall I q, denote x I = Some q -> q = p.
@@ -130,3 +158,15 @@ Example C16_ex_stack :
   stack_nt [Shared 5%Z [2]; Shared 6%Z [2]] 1 = Ok (Stack 1 [Shared 5%Z [2]; Shared 6%Z [2]]) /\
   maybe_to_stack (Shared 5%Z [2; 1]) = Ok (Stack 0 [Stack 0 [Shared 5%Z []]; Stack 0 [Shared 5%Z []]]).
 Proof. repeat split; reflexivity. Qed.
+Example C16_ex_setitem :
+  let x := Shared 1%Z [2; 2] in
+  let w1 := ([IInt 0%Z; ISl (Some 1%Z) None None], Shared 7%Z [1]) in
+  let w2 := ([IInt 0%Z; ISl (Some 1%Z) None None], Shared 1%Z [1]) in
+  Forall (legal_write [2; 2]) [w1; w2] /\
+  set_at x (fst w1) (snd w1) (snd w1) = Ok (Stack 0 [Stack 0 [Shared 1%Z []; Shared 7%Z []]; Stack 0 [Shared 1%Z []; Shared 1%Z []]]) /\
+  run_writes x [w1; w2] = Ok (Stack 0 [Stack 0 [Shared 1%Z []; Shared 1%Z []]; Stack 0 [Shared 1%Z []; Shared 1%Z []]]) /\
+  set_at x (fst w2) (snd w2) (snd w2) = Ok x.
+Proof.
+  repeat split; try reflexivity.
+  repeat constructor; cbn; try lia; (eexists; repeat split; reflexivity).
+Qed.
